@@ -1592,7 +1592,7 @@ func main() {
 		for len(raw)%cf.PerFile != 0 {
 			raw = append(raw, nil)
 		}
-		mf := &coqfmt.CaseFile{Dir: *out, Prefix: "C14m", PerFile: cf.PerFile,
+		mf := &coqfmt.CaseFile{Dir: *out, Prefix: "C14p", PerFile: cf.PerFile,
 			Header: cf.Header, Type: "mcase",
 			Footer: "Definition M := Eval vm_compute in mmismatches cases.\nDefinition D := Eval vm_compute in (@nil nat).\nDefinition V := Eval vm_compute in monitor_m_fails cases.\nPrint M. Print D. Print V.\n"}
 		master := rng.New(*seed ^ 0x3f17c14)
